@@ -34,6 +34,7 @@ type Analysis struct {
 	EventArgs       func(st *State, desc string, args []*Expr) string // optional argument rendering for call events
 	StoreHook       func(st *State, addr, val *Expr, in *ssa.Store)   // optional observer of every store (also in inlined helpers)
 	AfterFlow       func(from, to *ssa.BasicBlock, st *State)         // optional: strengthen the state entering a block (loop-head assumptions of a rule)
+	Unroll          int64                                             // trip-count limit for unrolling counted loops (default 8)
 	ForceInline     map[string]bool                                   // known functions analysed in caller context by this analysis only
 	EventsInInlined bool
 
@@ -1368,8 +1369,12 @@ func smallCountedLoop(phi *ssa.Phi) bool {
 	if !isC || n.Value == nil {
 		return false
 	}
-	return n.Int64()-init.Int64() <= 9 && n.Int64() >= init.Int64()
+	return n.Int64()-init.Int64() <= countedLoopMax+1 && n.Int64() >= init.Int64()
 }
+
+// countedLoopMax is the trip count up to which a counted loop is unrolled by
+// partitioning on its index (Analysis.Unroll raises it for one analysis).
+var countedLoopMax int64 = 8
 
 // linMentionsAnyPhi guards against relating a phi to the *old* value of
 // another phi of the same block (parallel assignment).
@@ -1455,6 +1460,11 @@ func (a *Analysis) Run() {
 	}
 	if entry.dead {
 		return
+	}
+	if a.Unroll > 0 {
+		prevU := countedLoopMax
+		countedLoopMax = a.Unroll
+		defer func() { countedLoopMax = prevU }()
 	}
 	if a.baseFrame != nil {
 		prev := curBaseFrame
